@@ -1057,6 +1057,38 @@ Definition tr_BSWL_scale (endpoints : (list go_endpoint_Endpoint)) (maxRange : Z
     (fun st : Z * (list go_selector_pair) * (list (Z * Z)) * (list Z) => let '(totalWeight, weightToId, idToWeight, staticWeightRouterCache) := st in
     Next (totalWeight, weightToId, idToWeight, staticWeightRouterCache))) else Panic.
 
+(* tars/selector/selector.go: func BuildStaticWeightList, statements "for i := 0; i < totalWeight; i++ {" .. "return staticWeightRouterCache" *)
+Definition tr_BSWL_rounds (endpoints : (list go_endpoint_Endpoint)) (totalWeight : Z) (weightToId : (list go_selector_pair)) (idToWeight : (list (Z * Z))) (staticWeightRouterCache : (list Z)) (ep_string : go_endpoint_Endpoint -> list N) : ctl unit (list Z) :=
+  bindc (go_count 0 totalWeight (fun (i : Z) => fun st : (list go_selector_pair) * (list Z) => let '(weightToId, staticWeightRouterCache) := st in
+      match go_sort_by (fun (a__ b__ : go_selector_pair) => match (if ((go_selector_pair_first a__) =? (go_selector_pair_first b__))
+          then if (andb (go_in_range endpoints (go_selector_pair_second a__)) (go_in_range endpoints (go_selector_pair_second b__))) then (Return (go_bytes_ltb (ep_string (go_nth endpoints (go_selector_pair_second a__) (Build_go_endpoint_Endpoint (@nil N) 0 0 0 0 0 0 0 0 (@nil N) (@nil N) (@nil N) (@nil N) (@nil N)))) (ep_string (go_nth endpoints (go_selector_pair_second b__) (Build_go_endpoint_Endpoint (@nil N) 0 0 0 0 0 0 0 0 (@nil N) (@nil N) (@nil N) (@nil N) (@nil N)))))) else Panic
+          else Return ((go_selector_pair_first a__) <? (go_selector_pair_first b__)) : ctl unit bool) with Return r__ => Some r__ | _ => None end) weightToId with
+      | Some weightToId =>
+      let mulTemp : (list go_selector_pair) := (@nil go_selector_pair) in
+      let first := true in
+      if ((-9223372036854775808) <? 0) then (bindc (go_count_down (wrapS 64 ((go_len weightToId) - 1)) 0 (fun (begin : Z) => fun st : (list Z) * (list go_selector_pair) * bool => let '(staticWeightRouterCache, mulTemp, first) := st in
+        if (go_in_range weightToId begin) then (let mIter := (go_nth weightToId begin (Build_go_selector_pair 0 0)) in
+        bindc (if first
+          then let first := false in
+            let staticWeightRouterCache := staticWeightRouterCache ++ [(go_selector_pair_second mIter)] in
+            let mulTemp := mulTemp ++ [{|
+      go_selector_pair_first := (wrapS 64 ((wrapS 64 ((go_selector_pair_first mIter) - totalWeight)) + (go_map_get idToWeight (go_selector_pair_second mIter) 0)));
+      go_selector_pair_second := (go_selector_pair_second mIter) |}] in
+            Next (staticWeightRouterCache, mulTemp, first)
+          else let mulTemp := mulTemp ++ [{|
+      go_selector_pair_first := (wrapS 64 ((go_selector_pair_first mIter) + (go_map_get idToWeight (go_selector_pair_second mIter) 0)));
+      go_selector_pair_second := (go_selector_pair_second mIter) |}] in
+            Next (staticWeightRouterCache, mulTemp, first))
+        (fun st : (list Z) * (list go_selector_pair) * bool => let '(staticWeightRouterCache, mulTemp, first) := st in
+        Next (staticWeightRouterCache, mulTemp, first))) else Panic) (staticWeightRouterCache, mulTemp, first))
+      (fun st : (list Z) * (list go_selector_pair) * bool => let '(staticWeightRouterCache, mulTemp, first) := st in
+      let weightToId := mulTemp in
+      Next (weightToId, staticWeightRouterCache))) else Panic
+      | None => Panic
+      end) (weightToId, staticWeightRouterCache))
+    (fun st : (list go_selector_pair) * (list Z) => let '(weightToId, staticWeightRouterCache) := st in
+    Return staticWeightRouterCache).
+
 (* tars/util/endpoint/parse.go: func Parse, statements "isTcp := int32(0)" .. "e := Endpoint{" *)
 Definition tr_Parse_build (proto : (list N)) (host : (list N)) (bind : (list N)) (port : Z) (timeout : Z) (grid : Z) (qos : Z) (weight : Z) (weightType : Z) (authType : Z) : ctl go_endpoint_Endpoint go_endpoint_Endpoint :=
   let isTcp := 0 in
